@@ -7,6 +7,16 @@ HERE = os.path.dirname(os.path.dirname(os.path.abspath(__file__)))
 
 # id -> (level category, technique, level text, level note, design ref)
 CHECKS = {
+    'C01': ('exploration', 'offline trace check (exactly-once routing, unique argument ids) over the event log of the compiled shell + mock runtime',
+            'Held on the compiled programs of the run: every event of every exposed port stimulated three times in its direction; the checker demands '
+            'a bijection stimuli <-> arrivals with equal port, event, id vectors, replies and out values.',
+            'Mock Dezyne runtime, mock model header and generated harness are the trusted base; events are driven one at a time.',
+            'DESIGN.md section 3 C01'),
+    'C02': ('exploration', 'ordering/thread-context trace check under ASan+UBSan with a gated dispatcher; accessor types as static_asserts',
+            'Held on the compiled programs of the run: dispatcher context, return-after-execution, post-and-return under a closed gate, '
+            'argument copies (id comparison + stack-use-after-return detection), STS identity and no dispatcher traffic.',
+            'Verdicts come from sequence numbers and the dispatcher flag of the mock pump, not from time.',
+            'DESIGN.md section 3 C02'),
     'C06': ('exploration', 'compile-and-link oracle: returned files, unmodified, against a mock Dezyne runtime and mock model header, in eight translation-unit shapes',
             'Held on the file sets of the run (special model shapes + random models, every third multi-client): each header alone and twice, '
             'all headers in random orders, harness TU + shell source linked and run, two shells per TU, two prefixes per program.',
